@@ -201,6 +201,29 @@ theorem parse_render_indirect_partial (env : Env R) (hd : env.decrypt = none) (f
   exact parse_indirect_spelling_partial env hd v tv h8 hk hu hdepth hsz [] a g1 b g2 g3 g4 (g5 ++ tail) id gen pre.length fuel
     Gap.nil h1 h2 h3 h4 h5 h6 hid hgen h7 h9 hs h11 h12 h13 hfuel
 
+/-- **Headline for sequences**: a sequence of objects as the printer writes it (`renderSeq`) is parsed back, by as
+    many consecutive `parse_with_lexer` calls as there are objects, to exactly these values, each call stopping
+    right after its own object's text. -/
+theorem parse_render_sequence_partial (env : Env R) (hd : env.decrypt = none) (fmt : R → List UInt8) (xs : List (Prim R))
+    (tail : List UInt8) (tape : List Nat) (hr : PdfSpec.RenderableL fmt env.parseReal xs)
+    (hw : ∀ x ∈ xs, KeysDistinct x ∧ namesUtf8 x = true ∧ vdepth x ≤ maxDepth) :
+    ∃ items rest, (PdfSpec.renderSeq fmt xs tail tape).1 = seqText items ++ rest ∧ items.map (·.1) = xs ∧
+      ∀ {buf : Buf}, buf.size ≤ 2147483647 → ∀ (pre : List UInt8) (fuel : Nat),
+        buf.toList = pre ++ (PdfSpec.renderSeq fmt xs tail tape).1 → seqNeed items ≤ fuel →
+        Ahead buf (pre.length + (seqText items).length) →
+        parseSeq env buf fuel xs.length pre.length = .ok (seqExpected pre.length items) := by
+  obtain ⟨items, rest, e, hok, hmap⟩ := PdfSpec.renderSeq_spec fmt env.parseReal xs tail hr
+    (fun x hx => ⟨wf_of x (hw x hx).1 (hw x hx).2.1, (hw x hx).2.2⟩) tape
+  refine ⟨items, rest, e, hmap, ?_⟩
+  intro buf hsz pre fuel hbuf hfuel hah
+  have hs : Suffix buf pre.length ([] ++ seqText items ++ rest) := by
+    rw [e] at hbuf
+    have := suffix_of_toList hbuf
+    simpa using this
+  have hl : xs.length = items.length := by rw [← hmap]; simp
+  have := parse_sequence_partial env hd items hsz [] rest pre.length fuel hok Gap.nil hs (by simpa using hah) hfuel
+  rw [hl]; simpa using this
+
 /-- The full-strength statement: as `parse_spelling_partial` but for *all* names the syntax can spell
     (`/#ff` is a legal name), i.e. without `namesUtf8`. -/
 def C03_full : Prop :=
